@@ -328,6 +328,14 @@ def one(prog, rep, cls, comb):
                     d = [dd for dd in rd.reaching(u[1], vec_st) if dd.kind == "assign"]
                     if len(d) == 1 and isinstance(d[0].value, ast.Call):
                         ct = bf.term(d[0].value, d[0].stmt)
+                        # (c) built in one expression: np.array([[c0], [c1]]) / np.array([c0, c1]).reshape(2, 1) ...
+                        arr = ct
+                        while arr[0] == "call" and arr[1][0] == "attr" and arr[1][2] in ("reshape", "astype") :
+                            arr = arr[1][1]
+                        if arr[0] == "call" and arr[1] in (G("numpy.array"), G("numpy.asarray")) and arr[2] and arr[2][0][0] in ("list", "tuple") and len(arr[2][0][1]) == 2:
+                            items = [x[1][0] if x[0] in ("list", "tuple") and len(x[1]) == 1 else x for x in arr[2][0][1]]
+                            usrc = ("stores", {("const", 0): items[0], ("const", 1): items[1]}, None)
+                            continue
                         callee = prog.functions.get(ct[1][1]) if ct[0] == "call" and ct[1][0] == "func" else None
                         if callee is not None and len(ct[2]) == 1:
                             cb = builder(prog, callee, inline=False)
